@@ -15,3 +15,9 @@ def run(ctx):
                 "mutated everywhere, the original is observed again) on all Wide-family types; after every call the full public observation "
                 "(values, presence, selection, encoding, unknown fields) must equal the abstract state; non-trivial = >= 2 ops")
     hist.run_histories(ctx, ["TMix", "TOne", "TOpt", "TRep", "TMapV", "TMapK", "TWkt", "TImpl", "Node"], 1500 if quick else 30000, 12, "observers")
+
+
+def redrive(ev):
+    if "ops" in ev.get("case", {}):
+        return hist.history_event((ev["case"]["ty"], ev["case"]["ops"], False))
+    return None
